@@ -175,7 +175,9 @@ def _judge(case, cfg, sol, obs_times, filt, sigmas, final_scale, how_ended, tags
     # (d) the returned backward factorisation reproduces marginals and cross-covariances
     post = getattr(full, "posterior", None)
     if post is not None:
-        means, cov, D = extract.markov_joint(post)
+        means_mp, cov_mp = extract.markov_joint_mp(post, d)  # 50 digits: the float64 recursion loses precision
+        means = [mpl.F(x) for x in means_mp]
+        cov = {kk: mpl.F(vv) for kk, vv in cov_mp.items() if kk[1] - kk[0] <= 1}
         for i in range(T):
             m, P = extract.normal_dense(extract.tree_index(sol.u, i))
             dref = np.maximum(np.sqrt(np.maximum(np.diag(P), 0)), floors[i])
